@@ -23,7 +23,8 @@ def _uniqify_labels(arr, labels: list[str]) -> np.ndarray:
     unique_labels = list(set(labels))
     mapping = np.array([-1] + [unique_labels.index(label) for label in labels])
 
-    palette = np.arange(len(labels), dtype=int)
+    # `arr` holds site indices, or -1 (no site) which maps to `mapping[0]`
+    palette = np.arange(-1, len(labels), dtype=int)
 
     index = np.digitize(arr, palette, right=True)
     return mapping[index]
